@@ -76,6 +76,7 @@ def run(ctx):
     evals = 0
     coq_jobs = []
     loop_jobs = []
+    n_outside_theorem = 0
     nloop = 0
     work = os.path.join(os.path.dirname(os.path.dirname(os.path.dirname(os.path.abspath(__file__)))), ".work")
     os.makedirs(work, exist_ok=True)
@@ -168,7 +169,10 @@ def run(ctx):
                 wf_ok = ids_ == list(range(1, len(rows) + 1)) and par_[1] == -1 and all(1 <= par_[c_] < c_ for c_ in ids_[1:]) \
                     and all(len(k_) != 1 or k_[0] == p_ + 1 for p_, k_ in kids_.items() if p_ >= 1)
                 if not wf_ok:
-                    viol.append(dict(case, kind="generated SWC file does not satisfy the hypotheses of C16_sectioning_loop_correct (generator error)", no_failing_input_found=True))
+                    # a valid file the theorem does not speak about (e.g. a neurite hanging on the first soma point and
+                    # written after another neurite: an only child that is not the next line); the model-vs-code and
+                    # reference comparisons still cover it, the theorem's coverage is reported in the evidence
+                    n_outside_theorem += 1
             except Exception as ex:
                 viol.append(dict(case, kind="the reader's sectioning loop raised", error=repr(ex)[:300]))
         # the proved checker on what the reader produced (sections recovered from the xyzr coordinates)
@@ -234,7 +238,7 @@ def run(ctx):
     viol = out
     return {"evaluations": evals, "distinct_nontrivial": len(distinct),
             "rule": "random depth-first SWC trees (single- and multi-point somata, neurites starting at the root or at the soma end, type changes at branch points, 12-40 points), ncomp in 1..4, optional min_radius: sections/connectivity, branch types, lengths, radii at compartment centres and type groups against tools/swcref.py; independence of ncomp; max_branch_len keeps the total length; the reader's own sections run through the proved checker; distinct by (types, parents) of the file",
-            "samples": samples, "violations": viol[:20], "traces_validated_against_impl": len(coq_jobs), "sectioning_loops_compared_with_model": nloop}
+            "samples": samples, "violations": viol[:20], "traces_validated_against_impl": len(coq_jobs), "sectioning_loops_compared_with_model": nloop, "files_outside_the_hypotheses_of_C16_sectioning_loop_correct": n_outside_theorem}
 
 
 def _sections_from_impl(path):
